@@ -31,7 +31,7 @@ func (t Tag) String() string {
 	return s
 }
 
-func (t Tag) Equal(o Tag) bool { return t.String() == o.String() && t.Name == o.Name }
+func (t Tag) Equal(o Tag) bool { return tagsKey([]Tag{t}) == tagsKey([]Tag{o}) }
 
 type Run struct {
 	Text string
@@ -108,7 +108,13 @@ func (d Den) String() string {
 func tagsKey(ts []Tag) string {
 	p := make([]string, len(ts))
 	for i, t := range ts {
-		p[i] = t.String()
+		p[i] = t.Name
+		if len(t.Classes) > 0 {
+			p[i] += fmt.Sprintf(" classes=%q", t.Classes)
+		}
+		if t.Annotation != "" {
+			p[i] += fmt.Sprintf(" annotation=%q", t.Annotation)
+		}
 	}
 	return strings.Join(p, ";")
 }
